@@ -267,9 +267,9 @@ func init() {
 		ID:        "C09",
 		Technique: "nil-dereference analysis on the typed syntax of every read accessor, getter, view method and codec closure (a dereference must be dominated by a nil test of the same variable); mutators must not return silently on read-only empties",
 		DesignRef: "DESIGN.md 3.8, 4 C09",
-		LevelText: "For every generated type: each read method of the fast-reflection type (Descriptor, Type, New, Interface, Range, Has, Get, WhichOneof, GetUnknown, IsValid, ProtoMethods), each plain getter, each read method of the list/map views and the size/marshal/unmarshal closures either never dereference the receiver / backing pointer / oneof wrapper or do so only under a nil test of that same variable (structured dominance); size of a nil message is 0 and marshal returns the input buffer (ENC/SIZE.frame); view mutators touch the backing store on every path and never return early on a nil backing pointer (writes into read-only empties panic rather than being dropped). Get of an unpopulated message / oneof message member returns the typed-nil read-only message and of an empty list/map the view with a nil backing pointer (ACC.get, ACC.view). Open findings: F7 (Has/Get/Range/WhichOneof/GetUnknown dereference a nil receiver), F8 (typed-nil oneof wrappers in Marshal/Get/Range). Not decided: behaviour of protojson/prototext/Clone/Merge on nil beyond the accessors they call (A3).",
+		LevelText: "For every generated type: each read method of the fast-reflection type (Descriptor, Type, New, Interface, Range, Has, Get, WhichOneof, GetUnknown, IsValid, ProtoMethods), each plain getter, each read method of the list/map views and the size/marshal/unmarshal closures either never dereference the receiver / backing pointer / oneof wrapper or do so only under a nil test of that same variable (structured dominance); size of a nil message is 0 and marshal returns the input buffer (ENC/SIZE.frame); view mutators touch the backing store on every path and never return early on a nil backing pointer (writes into read-only empties panic rather than being dropped). Get of an unpopulated message / oneof message member returns the typed-nil read-only message and of an empty list/map the view with a nil backing pointer (ACC.get, ACC.view); IsValid is `x != nil` and the type's Zero() is the typed nil of this very fast-reflection type (COH.type). Open findings: F7 (Has/Get/Range/WhichOneof/GetUnknown dereference a nil receiver), F8 (typed-nil oneof wrappers in Marshal/Get/Range). Not decided: behaviour of protojson/prototext/Clone/Merge on nil beyond the accessors they call (A3).",
 		Engines:      E{refl.RunNil, codec.RunEnc, codec.RunSize, refl.RunAcc, refl.RunCoh},
-		RulePrefixes: []string{"COH.msginfo", "COH.msgindex", "NIL", "ENC.nilwrap", "SIZE.nilwrap", "ENC.frame", "SIZE.frame", "ENC.walk", "SIZE.walk", "ACC.get", "ACC.has", "ACC.view", "ACC.whichoneof", "ACC.range", "G.model", "G.anchor", "GEN.build"},
+		RulePrefixes: []string{"COH.msginfo", "COH.msgindex", "COH.type", "NIL", "ENC.nilwrap", "SIZE.nilwrap", "ENC.frame", "SIZE.frame", "ENC.walk", "SIZE.walk", "ACC.get", "ACC.has", "ACC.view", "ACC.whichoneof", "ACC.range", "G.model", "G.anchor", "GEN.build"},
 		Floors: []core.Floor{
 			{Rule: "NIL.recv", Min: 500, Why: "11 read methods x message types"},
 			{Rule: "NIL.getter", Min: 400, Why: "getters"},
@@ -329,7 +329,7 @@ func init() {
 		DesignRef: "DESIGN.md 3.11, 4 C08",
 		LevelText: "A generated message's whole state is its Go struct and every accessor is a function of (struct state, arguments) only (PURE: read accessors write nothing), so per-operation conformance on all states gives conformance on all histories. For every field of every generated type, each arm of Has, Clear, Get, Set, Mutable, NewField (exactly one arm per schema field; unknown descriptors panic), each block of Range (each field exactly once, under its presence predicate, with its own descriptor variable and the value Get returns; a false callback stops), each arm of WhichOneof and every method of every list/map view is canonicalised and must equal the form the protoreflect contract prescribes for the field's kind and shape: value constructor / unwrapper / conversion of the kind, zero value, oneof wrapper asserted and constructed, view backed by a pointer to the field (write-through), allocation on Mutable, detached values from NewField/NewElement/NewValue. Open finding F9: Clear of a oneof member is unconditional. Not decided: agreement of returned values with dynamicpb as executed comparisons; panic message texts.",
 		Engines:      E{refl.RunAcc, refl.RunPure, codec.RunUnkAccessors, refl.RunCoh, refl.RunNil},
-		RulePrefixes: []string{"ACC", "PURE", "UNK.accessors", "COH.msginfo", "COH.msgindex", "NIL.msgmut", "NIL.mut", "G.model", "G.anchor", "GEN.build"},
+		RulePrefixes: []string{"ACC", "PURE", "UNK.accessors", "COH.msginfo", "COH.msgindex", "COH.type", "NIL.msgmut", "NIL.mut", "G.model", "G.anchor", "GEN.build"},
 		Floors: []core.Floor{
 			{Rule: "ACC.arms", Min: 300, Why: "6 methods x message types"},
 			{Rule: "ACC.get", Min: 400, Why: "fields"},
